@@ -21,7 +21,81 @@ func init() {
 }
 
 // deepCopyFieldExempt: fields that must not or need not be copied.
-var deepCopyFieldExempt = map[string]string{}
+var deepCopyFieldExempt = map[string]string{
+	"ConstantPlaceholder.Sibling": "candidate, not armed: placeholders pair up only while one `using` statement is being resolved and are marked Checked/Replaced before the check that created them ends; the REPL copies the environment between inputs, and no input was found whose verdict depends on the Sibling link of an already resolved placeholder",
+	"SingletonClass.singleton": "a singleton class never has a singleton of its own: NewSingletonClass is only ever given a class, mixin, module, interface or placeholder as the attached object, and SetSingleton is only called on attached objects",
+}
+
+// fieldsReadInModule: struct fields of package types that some selector
+// expression outside a composite-literal key and outside the left-hand side of
+// an assignment resolves to. A field nobody reads cannot influence a verdict.
+func (c *Ctx) fieldsReadInModule(pkgRel string) map[*types.Var]bool {
+	read := map[*types.Var]bool{}
+	for _, p := range c.Pkgs {
+		info := p.TypesInfo
+		for _, f := range p.Syntax {
+			lhs := map[ast.Expr]bool{}
+			ast.Inspect(f, func(n ast.Node) bool {
+				switch x := n.(type) {
+				case *ast.AssignStmt:
+					if x.Tok == token.ASSIGN || x.Tok == token.DEFINE {
+						for _, l := range x.Lhs {
+							lhs[ast.Unparen(l)] = true
+						}
+					}
+				case *ast.SelectorExpr:
+					if lhs[x] {
+						return true
+					}
+					if s := info.Selections[x]; s != nil && s.Kind() == types.FieldVal {
+						if v, ok := s.Obj().(*types.Var); ok && v.Pkg() != nil && relPkg(v.Pkg().Path()) == pkgRel {
+							read[v.Origin()] = true
+						}
+					}
+				}
+				return true
+			})
+		}
+	}
+	return read
+}
+
+// copyRegistersChild: the copy re-enters the Children set of its superclass
+// through registerAsChild right after its parent is stored; Children of the
+// copy itself is then filled by the copies of its subclasses the same way.
+func copyRegistersChild(fr *FuncRef, copyVar types.Object) bool {
+	info := fr.Pkg.TypesInfo
+	ok := false
+	ast.Inspect(fr.Decl.Body, func(n ast.Node) bool {
+		blk, isBlk := n.(*ast.BlockStmt)
+		if !isBlk {
+			return true
+		}
+		parentStored := false
+		for _, st := range blk.List {
+			switch x := st.(type) {
+			case *ast.AssignStmt:
+				for _, l := range x.Lhs {
+					if sel, isSel := ast.Unparen(l).(*ast.SelectorExpr); isSel && sel.Sel.Name == "parent" {
+						if id, isId := ast.Unparen(sel.X).(*ast.Ident); isId && info.Uses[id] == copyVar {
+							parentStored = true
+						}
+					}
+				}
+			case *ast.ExprStmt:
+				if call, isCall := x.X.(*ast.CallExpr); isCall && parentStored && IsCall(info, call, "types.Class.registerAsChild") {
+					if sel, isSel := call.Fun.(*ast.SelectorExpr); isSel {
+						if id, isId := ast.Unparen(sel.X).(*ast.Ident); isId && info.Uses[id] == copyVar {
+							ok = true
+						}
+					}
+				}
+			}
+		}
+		return true
+	})
+	return ok
+}
 
 // flattenFields lists the leaf fields of a struct type, descending into
 // embedded structs of the same package.
@@ -49,6 +123,14 @@ func flattenFields(t types.Type, seen map[types.Type]bool) []*types.Var {
 		out = append(out, f)
 	}
 	return out
+}
+
+func isStructValue(t types.Type) bool {
+	if _, isPtr := t.(*types.Pointer); isPtr {
+		return false
+	}
+	_, ok := t.Underlying().(*types.Struct)
+	return ok
 }
 
 func derefType(t types.Type) types.Type {
@@ -99,9 +181,14 @@ func (c *Ctx) writesIn(fr *FuncRef, target types.Object, out map[string]bool, de
 				continue
 			}
 			fv, _ := info.Uses[kid].(*types.Var)
-			if fv != nil && fv.Embedded() {
+			if fv != nil && fv.Embedded() && isStructValue(fv.Type()) {
 				// embedded struct initialised by a constructor call or literal
 				switch v := ast.Unparen(kv.Value).(type) {
+				default:
+					// value copy of the whole embedded struct (Module: u.Module)
+					for _, lf := range flattenFields(fv.Type(), map[types.Type]bool{}) {
+						out[lf.Name()] = true
+					}
 				case *ast.CallExpr:
 					for k := range c.ctorWrites(Callee(info, v), depth+1) {
 						out[k] = true
@@ -160,7 +247,7 @@ func (c *Ctx) writesIn(fr *FuncRef, target types.Object, out map[string]bool, de
 					if id, ok := ast.Unparen(sel.X).(*ast.Ident); ok && locals[info.Uses[id]] {
 						if s := info.Selections[sel]; s != nil && s.Kind() == types.FieldVal {
 							fv := s.Obj().(*types.Var)
-							if fv.Embedded() && i < len(x.Rhs) {
+							if fv.Embedded() && isStructValue(fv.Type()) && i < len(x.Rhs) {
 								if call, ok := ast.Unparen(x.Rhs[i]).(*ast.CallExpr); ok {
 									for k := range c.ctorWrites(Callee(info, call), depth+1) {
 										out[k] = true
@@ -212,6 +299,7 @@ func runCoverDeepCopy(c *Ctx) {
 	})
 	sort.Slice(frs, func(i, j int) bool { return FuncName(frs[i].Decl) < FuncName(frs[j].Decl) })
 	c.Stats["deepcopy_methods"] = len(frs)
+	read := c.fieldsReadInModule("types")
 	for _, fr := range frs {
 		info := fr.Pkg.TypesInfo
 		sig := fr.Obj.Type().(*types.Signature)
@@ -260,6 +348,15 @@ func runCoverDeepCopy(c *Ctx) {
 			key := tname + "." + f.Name()
 			if reason, ok := deepCopyFieldExempt[key]; ok {
 				c.OK(key, fr.Decl.Pos(), "reasoned exception: %s", reason)
+				continue
+			}
+			if !read[f.Origin()] {
+				c.OK(key, fr.Decl.Pos(), "no expression in the module reads this field")
+				c.Stats["deepcopy_fields_never_read"]++
+				continue
+			}
+			if f.Name() == "Children" && !written["Children"] {
+				c.Check(copyRegistersChild(fr, copyVar), key, fr.Decl.Pos(), "%s.DeepCopyEnv stores the copy's parent without registering the copy in the parent's Children set (registerAsChild): the compiler binds calls statically on classes whose Children set is empty", tname)
 				continue
 			}
 			c.Check(written[f.Name()], key, fr.Decl.Pos(), "%s.DeepCopyEnv never writes field %s of the copy: after a rejected REPL input the restored environment has it at its zero value", tname, f.Name())
